@@ -64,10 +64,30 @@ def _merge_constants_maps(first, second):
     return {key: value for key, value in first.items() if key in second and second[key] == value}
 
 
+def _call_modified_arguments(call):
+    """
+    The variables among the arguments of a :any:`CallStatement` that the callee may (re)define:
+    all of them if the callee is not known, otherwise those not bound to an ``intent(in)`` dummy
+    """
+    variable_types = (sym.Scalar, sym.Array, sym.DeferredTypeSymbol)
+    if call.routine:
+        return [
+            arg for dummy, arg in call.arg_iter()
+            if isinstance(arg, variable_types) and str(dummy.type.intent).lower() != 'in'
+        ]
+    arguments = itertools.chain(call.arguments, (arg for _, arg in call.kwarguments or ()))
+    return [arg for arg in arguments if isinstance(arg, variable_types)]
+
+
 def _modified_symbols(body):
-    """ The symbols that executing ``body`` may (re)define: assignment targets and loop variables """
+    """
+    The symbols that executing ``body`` may (re)define: assignment targets, loop variables
+    and variables handed to procedures
+    """
     symbols = [assign.lhs for assign in FindNodes(ir.Assignment).visit(body)]
     symbols += [loop.variable for loop in FindNodes(ir.Loop).visit(body)]
+    for call in FindNodes(ir.CallStatement).visit(body):
+        symbols += _call_modified_arguments(call)
     return symbols
 
 
@@ -149,6 +169,15 @@ class ConstantPropagationTransformer(Transformer):
             invalidate_constants_map(new_lhs, constants_map)
 
         return o._rebuild(lhs=new_lhs, rhs=new_rhs)
+
+    def visit_CallStatement(self, o, **kwargs):
+        constants_map = kwargs.get('constants_map', {})
+
+        # The callee may (re)define what it is handed
+        for symbol in _call_modified_arguments(o):
+            invalidate_constants_map(symbol, constants_map)
+
+        return o
 
     def visit_Conditional(self, o, **kwargs):
         constants_map = kwargs.get('constants_map', {})
